@@ -212,7 +212,8 @@ Record scion_view := {
   sv_last : Z;               (* decoded[len-1]: 0 = SCION/UDP, 1 = SCMP, 2 = anything else *)
   sv_len_ok : bool;          (* len(buf) >= udpLayer.Length *)
   sv_src_ia : Z; sv_dst_ia : Z;
-  sv_src_host : option Z;    (* RawSrcAddr as an unmapped IPv4 address, if SrcAddrType says IPv4 or IPv6 host (T4Ip,
+  sv_src_host : option Z;    (* the source endpoint: None if the SCION/UDP source port is not the port that was
+                                queried (udpLayer.SrcPort != remoteAddr.Host.Port); else RawSrcAddr as an unmapped IPv4 address, if SrcAddrType says IPv4 or IPv6 host (T4Ip,
                                 T16Ip); None: a service address or another address type, bytes that are no IP
                                 address, an IPv6 address that is not IPv4-mapped (the queried server and the
                                 client have IPv4 addresses here) *)
@@ -223,7 +224,7 @@ Record scion_view := {
 }.
 
 Inductive front :=
-| FrontIP (src : Z)          (* srcAddr.Addr().Unmap() *)
+| FrontIP (src : Z) (sport : Z)   (* srcAddr.Addr().Unmap(), srcAddr.Port() *)
 | FrontSCION (v : scion_view).
 
 Record dgram := {
@@ -288,7 +289,7 @@ Definition opt_eqb (a : option Z) (b : Z) : bool :=
 (* the checks between reading the datagram and ntp.DecodePacket *)
 Definition front_check (q : request) (g : dgram) : option eclass :=
   match g_front g with
-  | FrontIP src => if src =? q_server q then None else Some ESource
+  | FrontIP src sport => if (src =? q_server q) && (sport =? q_port q) then None else Some ESource
   | FrontSCION v =>
       if negb (sv_decode_ok v) then Some EScionDecode else
       if negb ((2 <=? sv_nlayers v) && ((sv_last v =? 0) || (sv_last v =? 1))) then Some EUnexpected else
@@ -308,7 +309,7 @@ Definition front_check (q : request) (g : dgram) : option eclass :=
 Definition crx_of (g : dgram) : Z :=
   match g_front g with
   | FrontSCION v => if sv_e2e v then match sv_tsopt v with Some t => t | None => g_crx g end else g_crx g
-  | FrontIP _ => g_crx g
+  | FrontIP _ _ => g_crx g
   end.
 
 Section Client.
@@ -430,9 +431,13 @@ Section Client.
      pool is empty, then the first cookie leaves the pool *)
   Definition fetch_pool (pool ke : list bytes) : list bytes :=
     match pool with [] => tl ke | _ :: r => r end.
-  (* Fetcher.StoreCookie, for every cookie: longer ones are ignored *)
-  Definition store_cookies (pool cs : list bytes) : list bytes :=
-    pool ++ filter (fun c => (length c <=? 896)%nat) cs.
+  (* Fetcher.StoreCookie, for every cookie in turn: longer ones are ignored (MaxCookieLen), and so is
+     every cookie that arrives while the pool already holds MaxStoredCookies = 8 *)
+  Definition store_cookie (pool : list bytes) (c : bytes) : list bytes :=
+    if (896 <? length c)%nat then pool
+    else if (8 <=? length pool)%nat then pool
+    else pool ++ [c].
+  Definition store_cookies (pool cs : list bytes) : list bytes := fold_left store_cookie cs pool.
 
   (* ---------------------------------------------------------------- *)
   (* request construction, state, the three exchanges of one call      *)
